@@ -161,6 +161,8 @@ def check_C13(ctx, rep):
         check_zero_division(fx, "TwoFloat::cbrt", t, b)
     check_powi(fx)
     check_powi_loop(fx)
+    from . import rules_total
+    rules_total.totality(rep, f, "R30", rules_total.entries_C13(), "powi / Pow / roots", min_sites=0)
     rep.floor("R31", len([o2 for o2 in rep.obl if o2["rule"] == "R31"]), 3, "root functions")
 
 def check_zero_division(fx, ident, t, b):
@@ -402,6 +404,8 @@ def check_C14(ctx, rep):
     # ---- mul_pow2 structural rule on MIR (loop)
     check_mul_pow2(fx, mp[0])
     check_series(fx, frac)
+    from . import rules_total
+    rules_total.totality(rep, f, "R36", rules_total.entries_C14(), "exp family", min_sites=30)
 
 def check_mul_pow2(fx, b):
     rep = fx.rep
@@ -525,6 +529,8 @@ def check_C15(ctx, rep):
     l10 = oracle.dd_named("LN_10")
     check_ref(fx, "R38", "TwoFloat::log10", RETV(s.ln() / TFv(l10[0], l10[1])), "ln(x) / dd(ln 10)")
     rep.floor("R37-39", len([o for o in rep.obl if o["rule"] in ("R38", "R39")]), 5, "logarithm functions")
+    from . import rules_total
+    rules_total.totality(rep, f, "R40", rules_total.entries_C15(), "logarithm family", min_sites=30)
 
 # ====================================================================== C16
 
@@ -804,6 +810,8 @@ def check_C18(ctx, rep):
     check_odd(fx, "TwoFloat::sinh")
     check_odd(fx, "TwoFloat::tanh")
     rep.floor("R49", len([o for o in rep.obl if o["rule"] == "R49"]), 6, "hyperbolic definitions")
+    from . import rules_total
+    rules_total.totality(rep, f, "R50", rules_total.entries_C18(), "hyperbolic family", min_sites=20)
 
 def check_odd(fx, ident):
     """f(-x) == -f(x) by normalisation: substitute -x, use the operator-level lemmas
